@@ -115,6 +115,8 @@ type ManualClock struct {
 	// Gate, when non-nil, is called at the start of every NowNano call with the
 	// value about to be returned; it may block (S2 clock gate).
 	Gate func(now int64)
+	// TickCh, when non-nil, is what Tick returns: a send on it makes the cache's periodic clean-up goroutine run once.
+	TickCh chan time.Time
 }
 
 func (m *ManualClock) NowNano() int64 {
@@ -124,7 +126,8 @@ func (m *ManualClock) NowNano() int64 {
 	}
 	return n
 }
-func (m *ManualClock) Tick(time.Duration) <-chan time.Time { return nil }
+// Tick returns the harness-owned tick channel (nil unless TickCh is set: the cache's periodic clean-up never fires then).
+func (m *ManualClock) Tick(time.Duration) <-chan time.Time { return m.TickCh }
 func (m *ManualClock) Set(n int64)                         { m.now.Store(n) }
 func (m *ManualClock) Now() int64                          { return m.now.Load() }
 func (m *ManualClock) Advance(d int64) int64               { return m.now.Add(d) }
